@@ -150,6 +150,28 @@ def perm_tuples(inst, rng, limit):
     return [[rng.choice(p) for p in per] for _ in range(limit)]
 
 
+def transform_events(s, rng):
+    """The three instance transformations (beyond the listed properties); they must leave their input alone."""
+    from job_shop_lib.generation._transformations import RemoveMachines, AddDurationNoise, RemoveJobs
+    inst = s.instance
+
+    def ev(kind, fn, **params):
+        out, r = _outcome(fn)
+        s._ev(dict({"a": "Transform", "kind": kind, "out": out,
+                    "result": model.instance_to_abstract(r) if out == "ok" else []}, **params))
+
+    if not inst.is_flexible:
+        n = rng.randint(1, max(1, inst.num_machines))
+        ev("remove_machines", lambda: RemoveMachines(n)(inst), n=n)
+        lo, hi, level = 1, rng.randint(3, 9), rng.randint(0, 3)
+        ev("add_noise", lambda: AddDurationNoise(lo, hi, level)(inst), lo=lo, hi=hi, level=level)
+    target = rng.randint(1, inst.num_jobs + 1)
+    ev("remove_jobs", lambda: RemoveJobs(1, inst.num_jobs, target_jobs=target)(inst), target=target)
+    # (RemoveMachines returns - and renames - its input when nothing has to be removed; the session's
+    #  fingerprint follows the object, so later events are judged against the instance as it is now)
+    s.fp0 = model.instance_fingerprint(inst)
+
+
 def sched_roundtrip_events(s):
     from job_shop_lib import Schedule
     sch = s.dispatcher.schedule
@@ -189,6 +211,8 @@ def c14():
         v, raised = project_views(s.instance)          # reading the views must not change them
         s._ev({"a": "Views", "views": v, "raised": raised})
         roundtrip_events(s, rng)
+        if i % 3 == 0:
+            transform_events(s, rng)
         nonflex = not s.instance.is_flexible
         if nonflex and s.instance.num_operations <= 6:
             for P in perm_tuples(b["inst"], rng, _n(chk, 24, 200)):
